@@ -253,6 +253,122 @@ func checkFIFO(arr []arrival, grants []lockCall) error {
 	return nil
 }
 
+// ---- arrival order at a lock of unknown type (fifo.Map's map-wide lock) ----
+
+// lockAcq is one acquisition of a lock read from the trace: the index of the
+// attempt, the index at which the caller had it, whether it parked.
+type lockAcq struct {
+	thread, obj        int
+	nth                int // n-th acquisition of an internal lock by this thread
+	attempt, acquired  int
+	blocked, completed bool
+}
+
+// internalAcqs extracts the acquisitions of every lock in the trace that is
+// not skipped, independent of the lock's type:
+//   - 1-slot channel used as a mutex: "send" is the attempt (parks iff the
+//     slot is taken), "recv" the release; a parked caller has the lock at its
+//     next trace event (hand-over is only possible after the previous owner
+//     released, so the order of those events is the grant order);
+//   - sync.Mutex: "lock?" is the attempt, the "lock" event the acquisition
+//     (adjacent in the trace iff the caller did not park).
+func internalAcqs(tr []mc.Ev, skip func(obj int) bool) []lockAcq {
+	type chst struct {
+		held    bool
+		waiting int
+	}
+	chans := map[int]*chst{}
+	nth := map[int]int{}
+	pendingCh := map[int]int{} // thread -> index into out of its parked channel acquisition
+	pendingMu := map[int]int{} // thread -> trace index of its "lock?" attempt
+	var out []lockAcq
+	for i, ev := range tr {
+		if ev.Thread < 0 {
+			continue
+		}
+		if k, ok := pendingCh[ev.Thread]; ok {
+			out[k].acquired, out[k].completed = i, true
+			delete(pendingCh, ev.Thread)
+		}
+		switch ev.Op {
+		case "send", "recv":
+			if ev.Obj == 0 || skip(ev.Obj) {
+				continue
+			}
+			c := chans[ev.Obj]
+			if c == nil {
+				c = &chst{}
+				chans[ev.Obj] = c
+			}
+			if ev.Op == "recv" {
+				if c.waiting > 0 {
+					c.waiting--
+				} else {
+					c.held = false
+				}
+				continue
+			}
+			a := lockAcq{thread: ev.Thread, obj: ev.Obj, nth: nth[ev.Thread], attempt: i, blocked: c.held}
+			nth[ev.Thread]++
+			if c.held {
+				c.waiting++
+				out = append(out, a)
+				pendingCh[ev.Thread] = len(out) - 1
+			} else {
+				c.held = true
+				a.acquired, a.completed = i, true
+				out = append(out, a)
+			}
+		case "lock?":
+			pendingMu[ev.Thread] = i
+		case "lock":
+			at, ok := pendingMu[ev.Thread]
+			if !ok {
+				continue
+			}
+			delete(pendingMu, ev.Thread)
+			out = append(out, lockAcq{thread: ev.Thread, obj: ev.Obj, nth: nth[ev.Thread], attempt: at, acquired: i, blocked: i != at+1, completed: true})
+			nth[ev.Thread]++
+		}
+	}
+	return out
+}
+
+// checkMapEntryOrder: "FIFO locks grant in arrival order" at the entrance of
+// fifo.Map. A Map.Lock(k) call arrives when it reaches the map-wide lock; a
+// call PARKED there (wait state) must enter the map before every Lock(k) call
+// on the same key that arrived after it. (Key-level grant order cannot be
+// demanded from map-level arrival: the unchanged code leaves the map-wide
+// lock before it queues on the key, so two callers may swap in between; that
+// order is checked separately from the instant they park on the key's mutex.)
+// The n-th map-wide acquisition of a thread belongs to its n/2-th section:
+// even = Lock, odd = Unlock.
+func checkMapEntryOrder(acqs []lockAcq, scriptOf map[int][]string, names map[int]string) error {
+	keyOf := func(a lockAcq) (string, bool) {
+		sc := scriptOf[a.thread]
+		if a.nth%2 != 0 || a.nth/2 >= len(sc) {
+			return "", false
+		}
+		return sc[a.nth/2][1:], true
+	}
+	for _, p := range acqs {
+		kp, ok := keyOf(p)
+		if !ok || !p.blocked || !p.completed {
+			continue
+		}
+		for _, q := range acqs {
+			kq, ok := keyOf(q)
+			if !ok || kq != kp || q.obj != p.obj || !q.completed {
+				continue
+			}
+			if q.attempt > p.attempt && q.acquired < p.acquired {
+				return fmt.Errorf("FIFO: a later Lock call on the same key overtook a caller parked at the entrance of the map\n%s's Lock(%q) #%d parked on the map-wide lock (trace index %d), %s's Lock(%q) #%d arrived later (index %d) and entered the map first (index %d < %d)", names[p.thread], kp, p.nth/2, p.attempt, names[q.thread], kq, q.nth/2, q.attempt, q.acquired, p.acquired)
+			}
+		}
+	}
+	return nil
+}
+
 func scenarios() []hx.Scenario {
 	var out []hx.Scenario
 	out = append(out, fifoMutexScenarios()...)
@@ -302,5 +418,30 @@ func TestFIFOOracleSelf(t *testing.T) {
 	overtaking := []lockCall{{1, 0}, {3, 0}, {2, 0}, {1, 1}}
 	if err := checkFIFO(arr, overtaking); err == nil {
 		t.Fatalf("overtaking grant order accepted")
+	}
+	// map-wide lock as a sync.Mutex: t2 parks, t3 barges in when t1 unlocks
+	scripts := map[int][]string{1: {"La"}, 2: {"La"}, 3: {"La"}}
+	nm := map[int]string{1: "t1", 2: "t2", 3: "t3"}
+	barging := []mc.Ev{
+		{Thread: 1, Op: "lock?"}, {Thread: 1, Op: "lock", Obj: 9},
+		{Thread: 2, Op: "lock?"},
+		{Thread: 1, Op: "unlock"}, {Thread: 1, Op: "unlock", Obj: 9},
+		{Thread: 3, Op: "lock?"}, {Thread: 3, Op: "lock", Obj: 9},
+		{Thread: 3, Op: "unlock"}, {Thread: 3, Op: "unlock", Obj: 9},
+		{Thread: 2, Op: "lock", Obj: 9},
+	}
+	if err := checkMapEntryOrder(internalAcqs(barging, func(int) bool { return false }), scripts, nm); err == nil {
+		t.Fatalf("barging on the map-wide lock accepted")
+	}
+	handover := []mc.Ev{
+		{Thread: 1, Op: "send", Obj: 9},
+		{Thread: 2, Op: "send", Obj: 9},
+		{Thread: 1, Op: "recv", Obj: 9},
+		{Thread: 3, Op: "send", Obj: 9},
+		{Thread: 2, Op: "recv", Obj: 9},
+		{Thread: 3, Op: "recv", Obj: 9},
+	}
+	if err := checkMapEntryOrder(internalAcqs(handover, func(int) bool { return false }), scripts, nm); err != nil {
+		t.Fatalf("FIFO hand-over rejected: %v", err)
 	}
 }
